@@ -44,7 +44,7 @@ def declare(reg):
         'mro': [], 'fields': {'mkeys': 'arr[MemoKeyR,bool]', 'mvals': 'arr[MemoKeyR,Outcome]'}, 'isa': ['dict'],
     }
     reg.classes['Ctx'] = {
-        'mro': ['tatsu/contexts/context.py:ParseContext', 'tatsu/contexts/engine.py:ParserEngine',
+        'mro': ['tatsu/peg/base.py:ModelContext', 'tatsu/contexts/context.py:ParseContext', 'tatsu/contexts/engine.py:ParserEngine',
                 'tatsu/contexts/core.py:ParserCore'],
         'fields': {'states': 'States', 'tracer': 'opaque:Tracer', '_active_config': 'ConfigR',
                    'keywords': 'strset', 'semantics': 'opaque:Semantics', '_memos': 'MemoD', '_results': 'MemoD',
@@ -56,9 +56,10 @@ def declare(reg):
     # grammar-model nodes are opaque objects; attributes are uninterpreted functions of the node
     for attr, srt in {'exp': 'opaque:Model', 'sep': 'opaque:Model', 'name': 'str', 'token': 'str', 'pattern': 'str',
                       'literal': 'Val', 'sequence': 'seq[opaque:Model]', 'options': 'seq[opaque:Model]',
-                      'expectingstr': 'str', '_rule': 'opaque:Model', 'rhs': 'opaque:Model'}.items():
+                      'expectingstr': 'str', '_rule': 'optopaque:Model', 'rhs': 'opaque:Model'}.items():
         reg.opaque_attrs[('Model', attr)] = ('attr', srt)
     reg.opaque_attrs[('Model', '_parse')] = ('method', 'PARSE')
+    reg.ctx_methods = {'find_rule': 'tatsu/peg/base.py:ModelContext.find_rule'}
     reg.opaque_attrs[('Model', '_add_defined')] = ('contract', 'tatsu/peg/base.py:Model._add_defined')
     for m in ('trace_match', 'trace_cut', 'trace_entry', 'trace_success', 'trace_failure', 'trace_event'):
         reg.opaque_attrs[('Tracer', m)] = ('method', 'NOOP')
